@@ -456,6 +456,78 @@ fn one(sh: &mut Shard, vars: Vec<VarSpec>, ops: Vec<Op>, dir: &std::path::Path) 
     sh.end();
 }
 
+/// A restart that fails part-way (round e): an initial value that depends on a retained global faults during a warm restart
+/// (`Scale : INT := 100 / Divisor` with Divisor retained at 0).  Whatever the failed restart left behind, a following cold
+/// restart must give a runtime that is observationally a newly built one, now and over the following cycles; and the
+/// same after two failed warm restarts in a row and after a failed warm restart of a faulted resource.
+fn failed_restart(sh: &mut Shard) {
+    let text = "CONFIGURATION C\nVAR_GLOBAL RETAIN\n  Divisor : INT := 4;\n  kept : DINT := 11;\nEND_VAR\nVAR_GLOBAL\n  plain : INT := 7;\nEND_VAR\nTASK T (INTERVAL := T#1ms, PRIORITY := 1);\nPROGRAM P1 WITH T : Main;\nEND_CONFIGURATION\nPROGRAM Main\nVAR_EXTERNAL Divisor : INT; plain : INT; kept : DINT; END_VAR\nVAR Scale : INT := INT#100 / Divisor; n : INT; loc : INT := 3; END_VAR\nVAR RETAIN pr : INT := 5; END_VAR\nn := n + INT#1;\nplain := plain + Scale;\nkept := kept + DINT#1;\npr := pr + INT#1;\nloc := loc + n;\nIF n = INT#2 THEN\n  Divisor := INT#0;\nEND_IF;\nEND_PROGRAM\n";
+    for (vi, script) in [vec!["warm", "cold"], vec!["warm", "warm", "cold"], vec!["warm", "cycle", "cold"], vec!["warm", "cold", "cycle", "warm", "cold"]].iter().enumerate() {
+        let case = json!({"failed_restart": script});
+        if !sh.begin("failed-restart", &case) {
+            continue;
+        }
+        let res: Result<u64, (String, String)> = (|| {
+            let mut r = build(text).map_err(|e| ("compile".to_string(), e))?;
+            for _ in 0..3 {
+                r.h.advance_time(Duration::from_millis(1));
+                if let Some(e) = r.h.cycle().errors.first() {
+                    return Err(("harness".into(), format!("cycle before the restart: {e:?}")));
+                }
+            }
+            let mut failed_warm = 0u64;
+            for (k, op) in script.iter().enumerate() {
+                match *op {
+                    "warm" => {
+                        if r.h.runtime_mut().restart(RestartMode::Warm).is_err() {
+                            failed_warm += 1;
+                        }
+                    }
+                    "cycle" => {
+                        r.h.advance_time(Duration::from_millis(1));
+                        let _ = r.h.cycle();
+                    }
+                    _ => {
+                        if let Err(e) = r.h.runtime_mut().restart(RestartMode::Cold) {
+                            return Err(("failed-restart|cold-restart-fails".into(), format!("step {k} of {script:?}: restart(Cold) = Err({e:?}); a newly built runtime starts without error")));
+                        }
+                        // from here on: a brand-new runtime
+                        let mut s = build(text).map_err(|e| ("compile".to_string(), e))?;
+                        compare(&r, &s, &[], &format!("right after the cold restart (step {k} of {script:?})")).map_err(|(c, d)| (format!("failed-restart|{c}"), d))?;
+                        if k + 1 == script.len() {
+                            for c in 0..4 {
+                                for x in [&mut r, &mut s] {
+                                    x.h.advance_time(Duration::from_millis(1));
+                                    let _ = x.h.cycle();
+                                }
+                                compare(&r, &s, &[], &format!("cycle {c} after the cold restart of {script:?}")).map_err(|(c, d)| (format!("failed-restart|{c}"), d))?;
+                            }
+                        } else {
+                            // bring the runtime under test back to "Divisor retained at 0"
+                            for _ in 0..3 {
+                                r.h.advance_time(Duration::from_millis(1));
+                                let _ = r.h.cycle();
+                            }
+                        }
+                    }
+                }
+            }
+            Ok(failed_warm)
+        })();
+        match res {
+            Ok(n) => {
+                sh.count("failed_warm_restarts_followed_by_a_cold_restart", n);
+                if n > 0 {
+                    sh.nontrivial(&("failed-restart", vi));
+                }
+            }
+            Err((sig, d)) if sig == "compile" || sig == "harness" => sh.inconclusive(format!("failed-restart: {sig}: {d}")),
+            Err((sig, d)) => sh.violation(sig, d, case.clone()),
+        }
+        sh.end();
+    }
+}
+
 pub fn run(sh: &mut Shard) {
     let work = PathBuf::from(std::env::var("TPV_WORKDIR").unwrap_or_else(|_| "/tmp".into()));
     let dir = work.join(format!("c09-{}-{}", sh.args.shard, std::process::id()));
@@ -470,6 +542,9 @@ pub fn run(sh: &mut Shard) {
         return;
     }
     let rng = Rng::new(sh.args.shard_seed());
+    if sh.args.shard == 0 {
+        failed_restart(sh);
+    }
     // systematic: every (scope, qualifier, type) cell with a fixed history containing all three restart kinds
     let fixed: Vec<Op> = vec![Op::Cycle(vec![1; IMG]), Op::Cycle(vec![0xff; IMG]), Op::Warm, Op::Cycle(vec![3; IMG]), Op::Power, Op::Cycle(vec![5; IMG]), Op::Fault, Op::Cold, Op::Cycle(vec![7; IMG]), Op::Cycle(vec![9; IMG])];
     let mut n = 0usize;
